@@ -256,7 +256,8 @@ SpansOk(t, offs, s, m, parent) ==
         LET w == WholeValue(Slice(t, m.sp, offs)) IN w.ok /\ Plain(w.v) = Plain(s)
   \* an array of tables (no span in the grammar: its elements are scattered) is reported from the first element's
   \* header to the end of the last element: the elements lie inside it and it starts and ends exactly with them
-  /\ (s.k = "a" /\ s.sp = NoSpan /\ m.sp # <<>> /\ Len(m.v) > 0 /\ \A x \in 1..Len(m.v) : m.v[x].sp # <<>>) =>
+  /\ (s.k = "a" /\ s.sp = NoSpan /\ Len(m.v) > 0 /\ \A x \in 1..Len(m.v) : m.v[x].sp # <<>>) =>
+        /\ m.sp # <<>>                                  \* (also when it has a single element)
         /\ \A x \in 1..Len(m.v) : Within(m.v[x].sp, m.sp)
         /\ m.sp[1] = m.v[1].sp[1] /\ m.sp[2] = m.v[Len(m.v)].sp[2]
   /\ CASE s.k = "a" -> Len(s.v) = Len(m.v) /\ \A x \in 1..Len(s.v) : SpansOk(t, offs, s.v[x], m.v[x], IF s.sp # NoSpan THEN m.sp ELSE <<>>)
@@ -366,6 +367,9 @@ CheckSpan(i) ==
                     IF /\ y.plain.err.msg_nonempty
                        /\ SpanWellFormed(y.plain.err.span, offs)
                        /\ kv.sp # NoSpan => y.plain.err.span = ByteSpan(kv.sp, offs)
+                       \* an array of tables: the range the document reports for it (C14 pins that range)
+                       /\ (kv.k = "a" /\ kv.sp = NoSpan /\ HasEntry(e.tree.v, <<107>>)) =>
+                            LET ms == e.tree.v[EntryFor(e.tree.v, <<107>>)].val.sp IN ms # <<>> => y.plain.err.span = ms
                     THEN TRUE ELSE Report(i, "err-type-location", [ty |-> y.ty, err |-> y.plain.err]) /\ FALSE
 
 \* line (1-based) and column (1-based, in characters) of code point position i; at end of input one past the
